@@ -83,6 +83,7 @@ func newDebugger(id, addr, dir, importFile string) (*debugger.Debugger, error) {
 	if addr != "" {
 		d.ServerMux, d.ServerHttp, err = server.New(d.Mach, addr, p)
 		if err != nil {
+			d.Mach.Dispose()
 			return nil, err
 		}
 	}
@@ -100,15 +101,22 @@ func newDebugger(id, addr, dir, importFile string) (*debugger.Debugger, error) {
 
 func theDebugger() (*debugger.Debugger, string, error) {
 	dbgOnce.Do(func() {
-		ln, err := net.Listen("tcp4", "127.0.0.1:0")
-		if err != nil {
-			dbgErr = err
-			return
-		}
-		dbgAddr = ln.Addr().String()
-		ln.Close()
 		dbgDir, _ = os.MkdirTemp("", "c16-")
-		dbgInst, dbgErr = newDebugger("verif-dbg", dbgAddr, dbgDir, "")
+		// the port is picked, released and bound again by the debugger's server: another process can take it in
+		// between (seen in a soak run on a busy machine) - pick another one then
+		for try := 0; try < 8; try++ {
+			ln, err := net.Listen("tcp4", "127.0.0.1:0")
+			if err != nil {
+				dbgErr = err
+				return
+			}
+			dbgAddr = ln.Addr().String()
+			ln.Close()
+			dbgInst, dbgErr = newDebugger(fmt.Sprintf("verif-dbg%d", try), dbgAddr, dbgDir, "")
+			if dbgErr == nil || !strings.Contains(dbgErr.Error(), "address already in use") {
+				return
+			}
+		}
 	})
 	return dbgInst, dbgAddr, dbgErr
 }
@@ -244,6 +252,13 @@ func runCase(c Case, st *ev.Stats) error {
 	defer phase("end")
 	d, addr, err := theDebugger()
 	if err != nil {
+		if strings.Contains(err.Error(), "address already in use") {
+			// environmental (no free port after several tries): nothing was checked
+			if st != nil {
+				st.Inconclusive()
+			}
+			return nil
+		}
 		return fmt.Errorf("setup: %v", err)
 	}
 	type source struct {
